@@ -407,6 +407,7 @@ var DefaultAccounts = []string{
 	"Assets:Bank:Checking", "Assets:Bank:Savings", "Assets:Bank", "Assets:Portfolio", "Liabilities:Card", "Liabilities:Loan:Car", "Expenses:Food",
 	"Equity:Equity", "Income:Salary", "Income:Gifts:Family", "Expenses:Rent", "Expenses:Food:Groceries", "Expenses:Food:Dining",
 	"Expenses:Trips:Rome:Hotel", "Assets:Bank:CH:Main:Sub", "Expenses:Café:Zürich", "Assets:Bank:Épargne", "Expenses:eatingOut", "Assets:Bank:konto9", "Assets:FixedAssets:House", "Liabilities:CurrentLiabilities:Card",
+	"Assets", "Equity:Opening", "Assets:1:2", "Assets:bank:checking", "Income", "Expenses:Food:Dining:Out",
 }
 
 // Random builds a well-formed journal (every used account opened before use, no closes
@@ -640,7 +641,30 @@ func Lifecycle(rng *rand.Rand, base, days, damage int, multi bool) *Journal {
 	}
 	for k := 0; k < damage && len(j.Dirs) > 1; k++ {
 		i := rng.Intn(len(j.Dirs))
-		switch rng.Intn(6) {
+		switch rng.Intn(8) {
+		case 6, 7:
+			// use after close: the closed account is the last one touched before its close (a zero booking or
+			// a zero assertion on the closing day) and the first one touched afterwards (credit side of the first
+			// booking, or the first line of an assertion, on the next day)
+			var closes []int
+			for n, d := range j.Dirs {
+				if d.K == "close" {
+					closes = append(closes, n)
+				}
+			}
+			if len(closes) > 0 {
+				cl := j.Dirs[closes[rng.Intn(len(closes))]]
+				if rng.Intn(2) == 0 && isAL(cl.A) { // (the statement speaks about assertions on asset / liability accounts only)
+					j.Dirs = append(j.Dirs, Dir{K: "assert", Z: cl.Z, Bal: []Bal{{A: cl.A, C: comms[0], Q: 0}}})
+				} else {
+					j.Dirs = append(j.Dirs, Dir{K: "trx", Z: cl.Z, Desc: "zz last before close", Bk: []Booking{{Cr: "Equity:Equity", Dr: cl.A, C: comms[0], Q: 0}}})
+				}
+				if rng.Intn(2) == 0 || !isAL(cl.A) {
+					j.Dirs = append(j.Dirs, Dir{K: "trx", Z: cl.Z + 1, Desc: "after close", Bk: []Booking{{Cr: cl.A, Dr: "Equity:Equity", C: comms[0], Q: 1 + rng.Intn(5)}}})
+				} else {
+					j.Dirs = append(j.Dirs, Dir{K: "assert", Z: cl.Z + 1, Bal: []Bal{{A: cl.A, C: comms[0], Q: 0}}})
+				}
+			}
 		case 0:
 			j.Dirs = append(j.Dirs[:i:i], j.Dirs[i+1:]...)
 		case 1:
